@@ -10,6 +10,7 @@ pub mod t_traverse;
 pub mod t_equal;
 pub mod t_model;
 pub mod t_nodemap;
+pub mod t_names;
 
 pub type Harness = fn();
 pub fn registry() -> Vec<(&'static str, Harness)> {
@@ -21,5 +22,6 @@ pub fn registry() -> Vec<(&'static str, Harness)> {
     t_equal::register(&mut v);
     t_model::register(&mut v);
     t_nodemap::register(&mut v);
+    t_names::register(&mut v);
     v
 }
